@@ -6,6 +6,9 @@ proof against a reference map needs:
   R-C10-1  unique keys: every insertion into the sequence (FlatMap::values, ParameterizedObject::paramList) is
            reached only on the failed edge of a lookup *of the key being inserted* (lookup = find_if over the whole
            sequence with an equality predicate on the key member), with no change of the sequence in between.
+           The element enters the sequence already carrying that key: an element appended default-constructed and
+           given its key afterwards is accepted only when assigning the key type cannot throw (otherwise a
+           phantom entry under KEY() remains when it does).
   R-C10-2  insertion order: the sequence is changed only by order-preserving operations (append, stable_partition
            / remove_if followed by truncation at the returned iterator, erase, clear, reserve, pop_back);
            partition, sort, reverse, rotate, swap / iter_swap, whole-element overwrite are rejected.
@@ -21,6 +24,12 @@ proof against a reference map needs:
            path `param != null && data.is<T>()` (same T) and otherwise returns the default untouched;
            setParam stores into the parameter found-or-added under that name; removeParam erases only the found
            iterator; resetAllParamQueryStatus writes query = false on every element of the sequence.
+           Derived state (members other than the list): a counter / flag of queried parameters that lets the reset
+           return early, and a remembered (position, name) that lets findParam skip the search, are accepted exactly
+           when their maintenance obligations hold on every path of every member (flag set => counter raised;
+           counter lowered only for a parameter tested to be flagged and un-flagged / removed; position rewritten
+           or invalidated after every erase / insert-before-end / compaction); any other influence of such a
+           member on results is undecided.
 Calls to helpers are followed (members of the analysed classes, free / file-local functions; a [[noreturn]] helper
 that throws ends the path with that throw); a helper whose own summary is a linear search - cursor from first to
 last, end test before element test, returns at the first element whose key equals the argument, else last, no other
@@ -176,6 +185,9 @@ class Seq:
                 out.append(('store', '=', ev))
             elif ev.kind == 'call' and last(ev.how or '') == 'operator=' and ev.place is not None and self.is_elem(ev.place):
                 out.append(('store', 'operator=', ev))      # assignment to a whole element of class type
+            elif ev.kind == 'call' and last(ev.how or '') == 'operator=' and isinstance(ev.place, tuple) and ev.place[:1] == ('field',) \
+                    and len(ev.place) == 3 and self.is_elem(ev.place[1]):
+                out.append(('store', 'operator=', ev))      # assignment to a class-type member (key / value) of an element
             elif ev.kind == 'call' and ev.node.get('kind') == 'CallExpr' and not fn_const:
                 vals = [unver(v) for v in (ev.value or ())]
                 if any(contains(v, S) for v in vals):
@@ -245,6 +257,22 @@ class Seq:
 # ============================================================================================
 #  generic rules over one record: R-C10-1, R-C10-2
 # ============================================================================================
+def path_pos(p, ev):
+    for i, e in enumerate(p.events):
+        if e is ev:
+            return i
+    return -1
+
+
+def is_elem_field_store(seq, x):
+    """sequence event that updates a member (key / value) of an element, not the sequence itself"""
+    kind, name, ev = x
+    if kind != 'store':
+        return False
+    lhs = ev.nf if ev.kind == 'store' else ev.place
+    return isinstance(lhs, tuple) and lhs[:1] == ('field',) and len(lhs) == 3 and seq.is_elem(lhs[1])
+
+
 def check_sequence_rules(ctx, tu, se, seq, fns, file_of, tag, counts):
     R1, R2 = 'R-C10-1', 'R-C10-2'
     S = seq.S
@@ -263,7 +291,10 @@ def check_sequence_rules(ctx, tu, se, seq, fns, file_of, tag, counts):
         for p in paths:
             evs = seq.seq_events(p, bool(f.get('const')))
             compacts = []
+            consumed = set()
             for kind, name, ev in evs:
+                if id(ev) in consumed:
+                    continue
                 l = tu.loc(ev.node)
                 what = tu.show(ev.node)
                 if kind == 'member' and (name in APPEND or name in INSERT):
@@ -283,6 +314,13 @@ def check_sequence_rules(ctx, tu, se, seq, fns, file_of, tag, counts):
                         args = args[1:]
                     # R-C10-1
                     lc = seq.lookup_cond(p, upto=ev.conds_n)
+                    if lc is None and any(pol is True and unver(c) in (('call', 'std::vector::empty', S), mk_eq(('const', 0), ('call', 'std::vector::size', S)),
+                                                                      mk_eq(vbegin(S), vend(S)))
+                                          and all(v == se.version_in(ev.ver or {}, S) for v in versions_in(c).get(S, set()))
+                                          for c, pol, _ in p.conds[:ev.conds_n]):
+                        ctx.ok(R1, inst, '`%s` into a sequence just tested to be empty' % what, l)
+                        counts['insert_ok'] += 1
+                        continue
                     if lc is None:
                         ctx.violation(R1, inst, '`%s` is not preceded by a failed lookup (find_if over the whole sequence == end) on this path: '
                                       'an existing key would be stored twice' % what, l, key='%s|%s|%s|insert-without-failed-lookup' % (R1, file, pname),
@@ -301,6 +339,43 @@ def check_sequence_rules(ctx, tu, se, seq, fns, file_of, tag, counts):
                         ctx.violation(R1, inst, 'the sequence is modified between the lookup and `%s`: the failed lookup no longer speaks about the '
                                       'sequence the element is inserted into' % what, l, key='%s|%s|%s|lookup-stale' % (R1, file, pname))
                         viol = True
+                        continue
+                    if not args and name == 'emplace_back' and keyexpr[:2] == ('field', ('lparam', 0)):
+                        # a default-constructed element is appended; its key is KEY() until a later statement assigns it
+                        back = ('call', 'std::vector::back', S)
+                        kst = None
+                        for k2, n2, e2 in evs:
+                            if k2 != 'store' or e2 is ev:
+                                continue
+                            lhs2 = e2.nf if e2.kind == 'store' else e2.place
+                            if lhs2 == ('field', back, keyexpr[2]) and path_pos(p, e2) > path_pos(p, ev):
+                                kst = e2
+                                break
+                        if kst is None:
+                            ctx.violation(R1, inst, '`%s` appends a default-constructed element: the lookup searched for `%s` but the inserted element has '
+                                          'the key KEY()' % (what, show(K)), l, key='%s|%s|%s|insert-other-key' % (R1, file, pname))
+                            viol = True
+                            continue
+                        kval = unver(kst.value if kst.kind == 'store' else (kst.value[0] if kst.value else None))
+                        consumed.add(id(kst))
+                        if kval != unver(K):
+                            ctx.violation(R1, inst, 'the lookup searched for `%s` but the appended element is given the key `%s`' % (show(K), show(kval)),
+                                          tu.loc(kst.node), key='%s|%s|%s|insert-other-key' % (R1, file, pname))
+                            viol = True
+                            continue
+                        kt = (seq.rec.get('targs') or [{}])[0]
+                        if kt.get('trivially_copyable'):
+                            ctx.ok(R1, inst, '`%s` then `%s` only after find_if(%s == %s) failed; assigning a %s cannot throw'
+                                   % (what, tu.show(kst.node), show(keyexpr), show(K), kt.get('t')), l)
+                            counts['insert_ok'] += 1
+                        else:
+                            ctx.violation(R1, inst, 'the new entry is appended under the default key (`%s`) and only then given the looked-up key (`%s`): the '
+                                          'insertion is not atomic - if copying the %s key throws, a phantom entry with key KEY() stays in the map '
+                                          '(size, contains, at, iteration all see it)' % (what, tu.show(kst.node), kt.get('t', 'KEY')), l,
+                                          key='%s|%s|%s|insert-not-atomic' % (R1, file, pname),
+                                          path=['failed lookup of %s' % show(K), 'append at %s: %s' % (l, what),
+                                                'key assigned afterwards at %s: %s' % (tu.loc(kst.node), tu.show(kst.node))])
+                            viol = True
                         continue
                     if not args:
                         ctx.undecided(R1, inst, 'cannot see the inserted element of `%s`' % what, l)
@@ -476,8 +551,14 @@ def check_flatmap(ctx, tu, tag=''):
                 for p in paths:
                     lc = seq.lookup_cond(p)
                     if lc is None:
-                        probs.append(('unguarded', 'a path reaches `%s` without comparing the lookup result with end()'
-                                      % (p.term[0] + (' ' + show(p.term[1]) if p.term[0] == 'return' and p.term[1] is not None else ''))))
+                        rv = unver(p.term[1]) if p.term[0] == 'return' and p.term[1] is not None else None
+                        msg = ('a path reaches `%s` without comparing the lookup result with end()'
+                               % (p.term[0] + (' ' + show(p.term[1]) if p.term[0] == 'return' and p.term[1] is not None else '')))
+                        # recognised wrong: an element of the sequence (the lookup result, back(), [i]) is used untested
+                        if rv is not None and not has_unknown(rv) and contains(rv, S):
+                            probs.append(('unguarded', msg))
+                        else:
+                            und.append(('unguarded', msg))
                         continue
                     failed, L, kx, K, _ = lc
                     want_lookup(L, K, kx)
@@ -499,7 +580,11 @@ def check_flatmap(ctx, tu, tag=''):
                 for p in paths:
                     lc = seq.lookup_cond(p)
                     if lc is None:
-                        probs.append(('unguarded', 'a path does not compare the lookup result with end()'))
+                        rv = unver(p.term[1]) if p.term[0] == 'return' and p.term[1] is not None else None
+                        if rv is not None and not has_unknown(rv) and contains(rv, S):
+                            probs.append(('unguarded', 'a path returns `%s` without comparing the lookup result with end()' % show(rv)))
+                        else:
+                            und.append(('unguarded', 'a path does not compare the lookup result with end()'))
                         continue
                     failed, L, kx, K, _ = lc
                     want_lookup(L, K, kx)
@@ -510,7 +595,8 @@ def check_flatmap(ctx, tu, tag=''):
                             (und if rv is None or has_unknown(rv) else probs).append(
                                 ('wrong-element', 'the found path returns `%s` instead of the found element\'s .second' % (show(rv) if rv else p.term[0])))
                     else:
-                        evs = [x for x in seq.seq_events(p, bool(f.get('const'))) if not (x[0] == 'algo' and x[1] in ALGO_READ)]
+                        evs = [x for x in seq.seq_events(p, bool(f.get('const'))) if not (x[0] == 'algo' and x[1] in ALGO_READ)
+                               and not is_elem_field_store(seq, x)]     # member updates of an element are judged by R-C10-1 / R-C10-2
                         apps = [x for x in evs if x[0] == 'member' and x[1] in APPEND]
                         if f.get('const'):
                             if p.term[0] != 'throw':
@@ -521,7 +607,8 @@ def check_flatmap(ctx, tu, tag=''):
                             continue
                         arg = unver(apps[0][2].value[0]) if apps[0][2].value else None
                         val = seq.elem_key(arg, ('field', ('lparam', 0), 'second')) if apps[0][1] == 'push_back' else \
-                            (unver(apps[0][2].value[1]) if len(apps[0][2].value) == 2 else None)
+                            (unver(apps[0][2].value[1]) if len(apps[0][2].value) == 2 else
+                             ('construct', 'VALUE') if len(apps[0][2].value) == 0 else None)
                         if val is None:
                             und.append(('inserted-value', 'cannot see the value inserted for a missing key'))
                         elif not (val == ('const', 0) or (val[0] == 'construct' and len(val) == 2) or val == ('str', '""')):
@@ -727,6 +814,30 @@ def check_paramobj(ctx, tu, tag=''):
     fpname = pattern_name(tu, finder)
     floc = tu.fn_loc(finder)
 
+    aux_names = [f['name'] for f in r['fields'] if f['name'] != S[2]]
+    aux_info = dict(cache=set(), skip={}, reset_fn=None, reset_ok=False)
+
+    def cache_hit(p, rvu, K):
+        """(index member, name member) if the path returns paramList[index member] under `index member < size()` and
+        `name member == name`: a remembered position"""
+        size = ('call', 'std::vector::size', S)
+        for c, pol, _ in p.conds:
+            cu = unver(c)
+            if pol is True and isinstance(cu, tuple) and cu[0] == 'lt' and cu[2] == size and isinstance(cu[1], tuple) \
+                    and cu[1][:2] == ('field', THIS) and cu[1][2] in aux_names:
+                idx = cu[1]
+                want = (('call', 'std::__shared_ptr::get', ('elem', S, idx)), ('addr', ('deref', ('elem', S, idx))),
+                        ('call', 'std::__shared_ptr::get', ('call', 'std::vector::at', S, idx)))
+                if rvu not in want:
+                    continue
+                for c2, pol2, _ in p.conds:
+                    c2u = unver(c2)
+                    if pol2 is True and isinstance(c2u, tuple) and c2u[0] == 'eq' and K in c2u[1:]:
+                        o = c2u[2] if c2u[1] == K else c2u[1]
+                        if isinstance(o, tuple) and o[:2] == ('field', THIS) and o[2] in aux_names:
+                            return (idx[2], o[2])
+        return None
+
     def eval_finder(flag):
         """classify the paths of findParam(name, flag): list of (kind, why) problems, list of undecided"""
         probs, und = [], []
@@ -741,7 +852,18 @@ def check_paramobj(ctx, tu, tag=''):
             rv = p.term[1] if p.term[0] == 'return' else None
             rvu = unver(rv) if rv is not None else None
             if lc is None:
-                probs.append(('unguarded', 'findParam(name, %s) has a path that never compares a lookup of the name with end()' % bool(flag)))
+                hit = cache_hit(p, rvu, K)
+                if hit is not None:
+                    aux_info['cache'].add(hit)        # judged by the coherence clause (check_aux_state)
+                    if evs:
+                        probs.append(('found-mutates', 'findParam modifies the list on the remembered-position path: `%s`' % tu.show(evs[0][2].node)))
+                    continue
+                if rvu is not None and not has_unknown(rvu) and contains(rvu, S) and not any(contains(rvu, ('field', THIS, a)) for a in aux_names):
+                    probs.append(('unguarded', 'findParam(name, %s) returns `%s` on a path that never compares a lookup of the name with end()'
+                                  % (bool(flag), show(rvu))))
+                else:
+                    und.append(('unguarded', 'findParam(name, %s) has a path without a lookup of the name whose result (`%s`) is not a recognised form'
+                                % (bool(flag), show(rvu) if rvu is not None else p.term[0])))
                 continue
             failed, L, kx, Kx, _ = lc
             if unver(Kx) != K or kx != keyexpr0:
@@ -865,7 +987,8 @@ def check_paramobj(ctx, tu, tag=''):
                 if other_stores:
                     und.append(('other-store', 'getParam writes `%s`' % show(other_stores[0].nf)))
                 if nonnull and typed:
-                    if len(qstores) != 1 or unver(qstores[0].value) != ('const', 1):
+                    already = p.cond_of(qplace) is True       # the path has just tested that the flag is set
+                    if not (already and not qstores) and (len(qstores) != 1 or unver(qstores[0].value) != ('const', 1)):
                         probs.append(('query-not-set', 'a successful typed read does not set `%s = true`' % QUERY))
                     if rv != get_t:
                         (und if rv is None or has_unknown(rv) else probs).append(
@@ -972,7 +1095,9 @@ def check_paramobj(ctx, tu, tag=''):
                                       % ', '.join(show(unver(a)) for a in evs[0][2].value)))
         elif name == 'resetAllParamQueryStatus':
             n5 += 1
-            check_reset_loop(tu, se, seq, f, paths, QUERY, probs, und)
+            aux_info['reset_fn'] = f
+            check_reset_loop(tu, se, seq, f, paths, QUERY, probs, und, aux_names, aux_info)
+            aux_info['reset_ok'] = not probs and not und
         elif name in ('params_begin', 'params_end'):
             n5 += 1
             for p in paths:
@@ -990,32 +1115,76 @@ def check_paramobj(ctx, tu, tag=''):
                 ctx.undecided(R5, inst, why, loc)
         else:
             ctx.ok(R5, inst, '%d path(s) conform' % len(paths), loc)
+    n5 += 1
+    check_aux_state(ctx, tu, se, seq, fns, r, finder, aux_names, aux_info, (DATA, QUERY, NAME), tag)
     return dict(n5=n5, counts=counts)
 
 
-def check_reset_loop(tu, se, seq, f, paths, QUERY, probs, und):
-    """every path is k >= 0 iterations of: test cursor against the end, store query=false into the cursor's element, advance by one"""
+def is_aux_cond(cu, aux_names, S):
+    """condition over auxiliary members only (no reference to the sequence)"""
+    return any(contains(cu, ('field', THIS, a)) for a in aux_names) and not contains(cu, S)
+
+
+def check_reset_loop(tu, se, seq, f, paths, QUERY, probs, und, aux_names=(), aux_info=None):
+    """every path is k >= 0 iterations of: test cursor against the end, store query=false into the cursor's element, advance by
+    one.  A path may be preceded by tests of auxiliary members (a counter / flag of queried parameters); a path that returns
+    without clearing because such a member is zero is recorded in aux_info['skip'] and justified (or not) by check_aux_state."""
     S = seq.S
-    its = [p for p in paths if any(ev.kind == 'store' for ev in p.events)]
+
+    def qstores(p):
+        return [ev for ev in p.events if ev.kind == 'store' and isinstance(ev.nf, tuple) and ev.nf[0] == 'field' and ev.nf[2] == QUERY]
+
+    its = [p for p in paths if qstores(p)]
     if not its:
         probs.append(('no-reset', 'no path writes `%s`' % QUERY))
         return
-    zero = [p for p in paths if not any(ev.kind == 'store' for ev in p.events)]
-    if not zero:
-        und.append(('loop-shape', 'no path skips the loop body'))
+    loop_paths = 0
+    zero_loop = 0
     for p in paths:
         if p.term[0] != 'end' and not (p.term[0] == 'return' and p.term[1] is None):
             und.append(('loop-shape', 'a path ends with %s' % p.term[0]))
             return
-        # split events into iterations by the loop-test conditions
-        stores = [ev for ev in p.events if ev.kind == 'store']
+        stores = qstores(p)
+        other = [ev for ev in p.events if ev.kind == 'store' and ev not in stores]
+        for ev in other:
+            if not (ev.place is not None and ev.place[:2] == ('field', THIS) and ev.place[2] in aux_names):
+                und.append(('loop-shape', 'the reset also writes `%s`' % show(ev.nf)))
+                return
         incs = [ev for ev in p.events if ev.kind == 'mutate' and ev.place is not None and ev.place[0] == 'var']
-        tests = p.conds
+        guards = []
+        tests = list(p.conds)
+        while tests and is_aux_cond(unver(tests[0][0]), aux_names, S):
+            guards.append(tests.pop(0))
+        if any(is_aux_cond(unver(c), aux_names, S) for c, pol, _ in tests):
+            und.append(('loop-shape', 'an auxiliary member is tested inside the loop'))
+            return
+        g = len(guards)
+        if guards and not tests and not stores:
+            # early exit decided by auxiliary members alone
+            ok_guard = False
+            if len(guards) == 1:
+                cu, pol = unver(guards[0][0]), guards[0][1]
+                a = None
+                if isinstance(cu, tuple) and cu[0] == 'eq' and ('const', 0) in cu[1:] and pol is True:
+                    o = cu[2] if cu[1] == ('const', 0) else cu[1]
+                    a = o
+                elif isinstance(cu, tuple) and cu[:2] == ('field', THIS) and pol is False:
+                    a = cu
+                if isinstance(a, tuple) and a[:2] == ('field', THIS) and a[2] in aux_names and aux_info is not None:
+                    aux_info['skip'][a[2]] = (f, p, guards[0])
+                    ok_guard = True
+            if not ok_guard:
+                und.append(('loop-shape', 'the reset returns early under `%s`, which is not a recognised "nothing is flagged" test'
+                            % ' && '.join(('' if pol else '!') + show(c) for c, pol, _ in guards)))
+                return
+            continue
+        loop_paths += 1
+        if not stores:
+            zero_loop += 1
         if len(tests) != len(stores) + 1:
             probs.append(('conditional-reset', 'the loop has %d test(s) for %d write(s) of `%s`: some element can be skipped or the loop left early'
                           % (len(tests), len(stores), QUERY)))
             return
-        cursor_iter = None
         for i, (c, pol, _) in enumerate(tests):
             cu = unver(c)
             last_test = (i == len(tests) - 1)
@@ -1049,7 +1218,7 @@ def check_reset_loop(tu, se, seq, f, paths, QUERY, probs, und):
             if not last_test:
                 st = stores[i]
                 elem = ('deref', cur) if form == 'iter' else ('elem', S, cur)
-                if st.conds_n != i + 1:
+                if st.conds_n != g + i + 1:
                     probs.append(('conditional-reset', 'the write of `%s` is conditional' % QUERY))
                     return
                 if st.nf != ('field', ('deref', elem), QUERY):
@@ -1064,6 +1233,196 @@ def check_reset_loop(tu, se, seq, f, paths, QUERY, probs, und):
             (probs if all(ev.how in ('operator++', '++', 'operator--', '--', 'operator+=') for ev in incs) else und).append(
                 ('loop-step', 'the cursor is advanced %d time(s) for %d element(s) written' % (len(incs), len(stores))))
             return
+    if not zero_loop:
+        und.append(('loop-shape', 'no path skips the loop body'))
+
+
+def check_aux_state(ctx, tu, se, seq, fns, r, finder, aux_names, info, names, tag):
+    """R-C10-5, coherence of derived state.  Members of ParameterizedObject other than the list are auxiliary; two uses are
+    recognised, each with the maintenance obligations that make it behaviour-preserving:
+      * a counter / flag C of queried parameters that lets resetAllParamQueryStatus return early when C == 0: every path that sets a
+        query flag (not known to be set already) raises C; C is lowered only on a path that has tested the flag of a parameter it
+        un-flags or removes; C is zeroed only by the clearing loop;
+      * a remembered position (index member I, name member N) that lets findParam return paramList[I] when I < size() and N == name:
+        I and N are written together as (position of a parameter found-or-added under K, K) or I is set to a constant; every
+        path that erases / inserts before the end / compacts the list writes I afterwards (or invalidates it).
+    Any other influence of an auxiliary member on results is undecided."""
+    R5 = 'R-C10-5'
+    S = seq.S
+    DATA, QUERY, NAME = names
+    file = tu.fn_file(finder)
+    inst0 = 'ParameterizedObject derived state' + tag
+    if not aux_names:
+        ctx.ok(R5, inst0, 'no members besides the parameter list: no derived state to keep coherent', file, nontrivial=False)
+        return
+    counters = dict(info['skip'])
+    caches = set(info['cache'])
+    cache_idx = {i: n for i, n in caches}
+    cache_name = {n: i for i, n in caches}
+    size = ('call', 'std::vector::size', S)
+    reported = False
+
+    def field(a):
+        return ('field', THIS, a)
+
+    def viol(f, kind, why, node, path=None):
+        nonlocal reported
+        reported = True
+        ctx.violation(R5, inst_name(f) + tag, why, tu.loc(node) if node is not None else tu.fn_loc(f),
+                      key='%s|%s|%s|%s' % (R5, tu.fn_file(f), pattern_name(tu, f), kind), path=path or [])
+
+    def und(f, why, node=None):
+        nonlocal reported
+        reported = True
+        ctx.undecided(R5, inst_name(f) + tag, why, tu.loc(node) if node is not None else tu.fn_loc(f))
+
+    def shifting(p, fconst):
+        out = []
+        for kind, name, ev in seq.seq_events(p, fconst):
+            if kind == 'member' and name == 'erase':
+                out.append(ev)
+            elif kind == 'member' and name in INSERT:
+                a = [unver(x) for x in (ev.value or ())]
+                if not a or a[0] != vend(S):
+                    out.append(ev)
+            elif kind == 'algo' and name in ALGO_COMPACT:
+                out.append(ev)
+            elif kind == 'algo' and name in ALGO_REORDER:
+                out.append(ev)
+        return out
+
+    for f in fns:
+        try:
+            paths = se.paths(f)
+        except Unsupported:
+            continue
+        fconst = bool(f.get('const'))
+        for p in paths:
+            writes = {}       # aux member -> [(event, kind, value)]
+            for ev in p.events:
+                pl = ev.place if ev.kind in ('store', 'mutate') else None
+                if isinstance(pl, tuple) and pl[:2] == ('field', THIS) and len(pl) == 3 and pl[2] in aux_names:
+                    if ev.kind == 'store':
+                        writes.setdefault(pl[2], []).append((ev, '=', unver(ev.value)))
+                    else:
+                        v = unver(ev.value[0]) if (ev.how == 'operator=' and ev.value) else None
+                        writes.setdefault(pl[2], []).append((ev, ev.how, v))
+            qsets = [ev for ev in p.events if ev.kind == 'store' and isinstance(ev.nf, tuple) and ev.nf[0] == 'field' and ev.nf[2] == QUERY]
+            # ---- counters
+            for C, (rf, rp, guard) in counters.items():
+                ups = [w for w in writes.get(C, []) if w[1] in ('++', 'operator++') or (w[1] == '=' and isinstance(w[2], tuple) and (
+                    (w[2][0] == 'const' and w[2][1] != 0) or (w[2][0] == 'add' and any(isinstance(x, tuple) and x[0] == 'const' and x[1] > 0 for x in w[2][1:]))))]
+                downs = [w for w in writes.get(C, []) if w[1] in ('--', 'operator--') or (w[1] == '=' and isinstance(w[2], tuple) and
+                                                                                         w[2][0] == 'add' and any(isinstance(x, tuple) and x[0] == 'const' and x[1] < 0 for x in w[2][1:]))]
+                zeros = [w for w in writes.get(C, []) if w[1] == '=' and w[2] == ('const', 0)]
+                others = [w for w in writes.get(C, []) if w not in ups and w not in downs and w not in zeros]
+                for ev in qsets:
+                    if unver(ev.value) == ('const', 1) and p.cond_of(ev.nf) is not True and not ups:
+                        viol(f, 'counter-not-raised', 'a query flag is set (`%s`) on a path that does not raise `%s`: `%s` can be zero while a parameter is '
+                             'flagged, and %s then returns without clearing it' % (tu.show(ev.node), C, C, short(strip_targs(rf['q']))), ev.node)
+                for w in downs:
+                    tested = [c for c, pol, _ in p.conds[:w[0].conds_n] if pol is True and isinstance(unver(c), tuple) and unver(c)[0] == 'field'
+                              and unver(c)[2] == QUERY]
+                    justified = False
+                    for c in tested:
+                        X = unver(c)[1]
+                        cleared = any(ev.nf == ('field', X, QUERY) and unver(ev.value) == ('const', 0) for ev in qsets)
+                        erased = any(contains(X, unver(a)) for ev in shifting(p, fconst) for a in (ev.value or ()) if isinstance(unver(a), tuple))
+                        if cleared or erased:
+                            justified = True
+                    if justified:
+                        continue
+                    if any(contains(unver(c), QUERY) for c, pol, _ in p.conds):
+                        und(f, '`%s` is lowered on a path whose tests of `%s` are not in a recognised form' % (C, QUERY), w[0].node)
+                        continue
+                    viol(f, 'counter-lowered-unjustified',
+                         '`%s` lowers the counter `%s` on a path that never tests whether the parameter it removes / un-flags was flagged as queried '
+                         '(path conditions: %s). The counter is not maintained exactly: it can reach 0 while parameters are still flagged, and %s '
+                         'returns early on `%s` without clearing them - a successful read then stays "queried" across a reset'
+                         % (tu.show(w[0].node), C, ', '.join('%s is %s' % (show(c), pol) for c, pol, _ in p.conds[:w[0].conds_n]) or 'none',
+                            short(strip_targs(rf['q'])), show(guard[0]) + (' is %s' % guard[1])), w[0].node,
+                         path=['%s returns early when %s' % (rf['q'], show(guard[0])), 'lowered at %s: %s' % (tu.loc(w[0].node), tu.show(w[0].node))])
+                for w in zeros:
+                    if f is not rf:
+                        und(f, '`%s` is zeroed outside the clearing loop' % C, w[0].node)
+                    elif not any(ev.nf[2] == QUERY for ev in qsets) and p.cond_of(mk_eq(vbegin(S), vend(S))) is not True:
+                        und(f, '`%s` is zeroed on a path that does not clear the flags' % C, w[0].node)
+                for w in others:
+                    und(f, '`%s` is written in a form that is not a recognised raise / lower / reset (`%s`)' % (C, tu.show(w[0].node)), w[0].node)
+            # ---- remembered positions
+            for I, N in caches:
+                sh = shifting(p, fconst)
+                wI = writes.get(I, [])
+                wN = writes.get(N, [])
+                for w in wI:
+                    v = w[2]
+                    if w[1] == '=' and isinstance(v, tuple) and v[0] == 'const':
+                        continue          # invalidation (or a fixed position: harmless only if out of range - the guard I < size() decides)
+                    okpos = False
+                    if w[1] == '=' and isinstance(v, tuple) and v[0] == 'call' and v[1] == 'std::distance' and len(v) == 5 and v[3] == vbegin(S):
+                        X = v[4]
+                        kn = [unver(x[2]) for x in wN if x[2] is not None]
+                        m = seq.match_lookup(X)
+                        lc = seq.lookup_cond(p)
+                        if m is not None and lc is not None and lc[0] is False and unver(lc[1]) == X and kn == [unver(m[1])]:
+                            okpos = True
+                        if X == mk_comm('add', [vend(S), ('const', -1)]) and lc is not None and lc[0] is True and kn == [unver(lc[3])]:
+                            apps = [x for x in seq.seq_events(p, fconst) if x[0] == 'member' and x[1] in APPEND]
+                            if len(apps) == 1 and path_pos(p, apps[0][2]) < path_pos(p, w[0]):
+                                okpos = True
+                    if not okpos:
+                        und(f, 'the remembered position `%s` is set to `%s`, which is not recognised as the position of the parameter named by `%s`'
+                            % (I, show(v) if v is not None else w[1], N), w[0].node)
+                for w in wN:
+                    if not wI:
+                        und(f, 'the remembered name `%s` is written without the position `%s`' % (N, I), w[0].node)
+                if sh:
+                    last_sh = max(path_pos(p, ev) for ev in sh)
+                    after = [w for w in wI if path_pos(p, w[0]) > last_sh or (w[1] == '=' and isinstance(w[2], tuple) and w[2][0] == 'const')]
+                    if not after:
+                        ev = sh[-1]
+                        if any(contains(unver(c), field(I)) for c, pol, _ in p.conds):
+                            und(f, '`%s` moves parameters while the remembered position `%s` is kept, on a path that tests `%s` in a form not modelled'
+                                % (tu.show(ev.node), I, I), ev.node)
+                        else:
+                            viol(f, 'remembered-position-stale',
+                                 '`%s` moves the parameters behind it to new positions on a path that leaves the remembered position `%s` untouched '
+                                 '(path conditions: %s). %s later returns paramList[%s] when `%s` equals the requested name: after removing an '
+                                 'earlier parameter that is a different parameter, so lookups / setParam / getParam hit the wrong entry'
+                                 % (tu.show(ev.node), I, ', '.join('%s is %s' % (show(c), pol) for c, pol, _ in p.conds) or 'none',
+                                    short(strip_targs(finder['q'])), I, N), ev.node,
+                                 path=['%s returns paramList[%s] under %s < size() && %s == name' % (finder['q'], I, I, N),
+                                       'positions shift at %s: %s' % (tu.loc(ev.node), tu.show(ev.node)), 'no write of %s follows on this path' % I])
+        # ---- any other influence of auxiliary members on this function's results
+        if f is finder or f is info.get('reset_fn'):
+            for p in paths:
+                for c, pol, _ in p.conds:
+                    cu = unver(c)
+                    if not any(contains(cu, field(a)) for a in aux_names):
+                        continue
+                    used = [a for a in aux_names if contains(cu, field(a))]
+                    if f is finder and all(a in cache_idx or a in cache_name for a in used):
+                        continue
+                    if f is info.get('reset_fn') and all(a in counters for a in used):
+                        continue
+                    und(f, 'the auxiliary member(s) %s decide `%s` in a way that is not a recognised counter / remembered position' % (used, show(cu)))
+                    break
+        else:
+            groups = {}
+            for p in paths:
+                key = frozenset((unver(c), pol) for c, pol, _ in p.conds if not any(contains(unver(c), field(a)) for a in aux_names))
+                evs = tuple((k, n, tuple(unver(a) for a in (ev.value or ()))) for k, n, ev in seq.seq_events(p, fconst)
+                            if not (k == 'algo' and n in ALGO_READ))
+                qs = tuple((ev.nf, unver(ev.value)) for ev in p.events if ev.kind == 'store' and isinstance(ev.nf, tuple) and ev.nf[0] == 'field'
+                           and ev.nf[2] in (QUERY, DATA))
+                t = p.term
+                res = (t[0], unver(t[1]) if t[0] == 'return' and t[1] is not None else (t[1] if t[0] == 'throw' else None))
+                groups.setdefault(key, set()).add((evs, qs, res))
+            if any(len(v) > 1 for v in groups.values()):
+                und(f, 'an auxiliary member (%s) changes what this function does to the list / the flags / its result' % ', '.join(aux_names))
+    if not reported:
+        ctx.ok(R5, inst0, 'auxiliary members %s: %s; all maintenance obligations hold'
+               % (aux_names, ', '.join(['counter ' + c for c in counters] + ['remembered position (%s,%s)' % x for x in caches]) or 'no influence on results'), file)
 
 
 # ============================================================================================
